@@ -32,7 +32,11 @@ fn adopt(rep: &mut Report, sub: Report, rule: &'static str, from: &str, keep: im
 
 pub fn check(cx: &Cx, rep: &mut Report) {
     let ix = cx.ix;
-    if !ix.has_fault() {
+    let timeout_failure = facts(cx).values().any(|a| a.timeout_failed);
+    if timeout_failure {
+        rep.count("fault_table_hit.fail_on_timeout@handler", 1);
+    }
+    if !ix.has_fault() && !timeout_failure {
         // the fault-free base run of a family: nothing to contain (still counted as an evaluation)
         rep.count("C06.fault_free_runs", 1);
         return;
